@@ -376,7 +376,61 @@ func runC16(x *simkit.Exec) {
 		treg := &taskReg{}
 		parkCtx, unpark := context.WithCancel(ctx)
 		defer unpark()
-		installYield(parkCtx, s, treg, nil)
+		// which BinaryReader answers: one that the lazy reader has closed (unloaded) must never be asked again
+		var closedMu sync.Mutex
+		closed := map[*indexheader.BinaryReader]bool{}
+		var staleUses []string
+		onEvent := func(site string, v any) {
+			br, ok := v.(*indexheader.BinaryReader)
+			if !ok || br == ref {
+				return
+			}
+			closedMu.Lock()
+			defer closedMu.Unlock()
+			switch site {
+			case "binaryreader.close":
+				closed[br] = true
+			case "binaryreader.use":
+				if closed[br] {
+					who := "a lookup"
+					if ti := treg.current(); ti != nil {
+						who = ti.name
+					}
+					staleUses = append(staleUses, who)
+				}
+			}
+		}
+		takeStale := func() []string {
+			closedMu.Lock()
+			defer closedMu.Unlock()
+			out := staleUses
+			staleUses = nil
+			return out
+		}
+		verifhook.Set(&verifhook.Hooks{Event: onEvent, Yield: func(site string) {
+			ti := treg.current()
+			if ti == nil || parkCtx.Err() != nil {
+				return
+			}
+			window := site == "lazy.load.after-unlock"
+			l0, u0 := 0, 0
+			if window {
+				l0, u0 = c16Counter(reg, "indexheader_lazy_load_total"), c16Counter(reg, "indexheader_lazy_unload_total")
+			}
+			ti.atYield.Add(1)
+			_ = s.Park(parkCtx, s.OpID(ti.name, "yield", site))
+			ti.atYield.Add(-1)
+			if window && parkCtx.Err() == nil {
+				// what happened between this lookup's write unlock and its read lock
+				l1, u1 := c16Counter(reg, "indexheader_lazy_load_total"), c16Counter(reg, "indexheader_lazy_unload_total")
+				switch {
+				case u1 > u0 && l1 > l0:
+					s.Probe("c16.window_unloaded_and_reloaded")
+				case u1 > u0:
+					s.Probe("c16.window_unloaded")
+				}
+			}
+		}})
 		defer verifhook.Set(nil)
 		// never aligned with the sweeper's timer (idle/10 period): which of two timers due at the same
 		// instant fires first is up to the runtime
@@ -388,6 +442,15 @@ func runC16(x *simkit.Exec) {
 			want := c16Render(c16Do(ctx, ref, c, scheduled))
 			v, err := c16Do(ctx, rd, c, scheduled)
 			got := c16Render(v, err)
+			if st := takeStale(); len(st) > 0 {
+				phase := ""
+				if !scheduled {
+					phase = ":concurrent-phase"
+				}
+				s.Violate("no-answer-from-closed-header", "closed-header-asked:"+c.method()+phase,
+					"%s %s -> %s: the lazy reader put the question to a BinaryReader it had already closed (unloaded), asked by %v", name, c, got, st)
+				return
+			}
 			if scheduled {
 				s.Note("%s %s -> %s", name, c, got)
 			}
